@@ -53,20 +53,22 @@ def run(rep: Report, tier: str, only=None) -> None:
 	for classes, extra in BALANCE_ALPHABETS:
 		for c in class_splits(classes, k, n + extra):
 			jobs.append(Job('O4.balance', H, 'balance_law', c, t, 'S', f'buffer length <= {n + extra} over {show(classes)}, consistent layout', ('indent', 'bracket')))
+	n_cp = n - 1 if thorough else n  # the reference lexer runs next to the implementation: one character less than the raw-lexer laws
 	for classes in CPYTHON_ALPHABETS:
-		for c in class_splits(classes, k, n):
-			jobs.append(Job('O5.cpython', H, 'cpython_law', c, t, 'S', f'buffer length <= {n} over {show(classes)}, inside the lexical subset', ('several_tokens',)))
+		for c in class_splits(classes, k, n_cp):
+			jobs.append(Job('O5.cpython', H, 'cpython_law', c, t, 'S', f'buffer length <= {n_cp} over {show(classes)}, inside the lexical subset', ('several_tokens',)))
 	# strings ending in escaped backslashes followed by more quotes (the region of the repaired parse_quote defect)
 	esc = ['"', '\\', L_NO_R, ' ']
-	jobs.append(Job('O5.cpython', H, 'cpython_law', {'classes': esc, 'prefix': [0, 1, 1], 'n': n + 3}, t, 'S', f'buffer length <= {n + 3} starting with quote, backslash, backslash over {show(esc)}', ('string',)))
-	jobs.append(Job('O5.cpython', H, 'cpython_law', {'classes': esc, 'prefix': [0, 2, 1], 'n': n + 3}, t, 'S', f'buffer length <= {n + 3} starting with quote, letter, backslash over {show(esc)}', ('string',)))
+	jobs.append(Job('O5.cpython', H, 'cpython_law', {'classes': esc, 'prefix': [0, 1, 1], 'n': n + (2 if thorough else 3)}, t, 'S', f'buffer length <= {n + (2 if thorough else 3)} starting with quote, backslash, backslash over {show(esc)}', ('string',)))
+	jobs.append(Job('O5.cpython', H, 'cpython_law', {'classes': esc, 'prefix': [0, 2, 1], 'n': n + (2 if thorough else 3)}, t, 'S', f'buffer length <= {n + (2 if thorough else 3)} starting with quote, letter, backslash over {show(esc)}', ('string',)))
+	n_lay = n - 1 if thorough else n
 	for classes in SPACE_ALPHABETS:
-		for c in class_splits(classes, k, n):
-			jobs.append(Job('O6.space', H, 'space_law', c, t, 'S', f'buffer length <= {n} over {show(classes)}, symbolic edit position', ('edit',)))
+		for c in class_splits(classes, k, n_lay):
+			jobs.append(Job('O6.space', H, 'space_law', c, t, 'S', f'buffer length <= {n_lay} over {show(classes)}, symbolic edit position', ('edit',)))
 	for edit in (EDITS if thorough else EDITS[:2] + EDITS[3:4]):
 		for classes in LINE_END_ALPHABETS:
-			for c in class_splits(classes, k, n):
-				jobs.append(Job('O6.line_end', H, 'line_end_law', {'edit': edit, **c}, t, 'S', f'buffer length <= {n} over {show(classes)}, symbolic line end, edit {edit}', ('edit', 'inner_line_end')))
+			for c in class_splits(classes, k, n_lay):
+				jobs.append(Job('O6.line_end', H, 'line_end_law', {'edit': edit, **c}, t, 'S', f'buffer length <= {n_lay} over {show(classes)}, symbolic line end, edit {edit}', ('edit', 'inner_line_end')))
 	if only:
 		jobs = [j for j in jobs if j.obligation in only or j.obligation.split('.')[0] in only]
 	rep.functions = ['Lexer.parse_impl', 'Lexer.analyze_domain/analyze_*', 'Lexer.parse_white_spece/parse_comment/parse_quote/parse_number/parse_identifier/parse_symbol', 'Lexer.parse/post_filter',
